@@ -105,7 +105,7 @@ def cache_index_findings(run, cases, traces=None):
     if b3:
         drifted = {d["id"] for d in run.drift if d["clause"] == "drift.order-b3"}
         slim = [{k: v for k, v in t.items() if k not in ("build_exc", "build_tb")} for t in b3]
-        rej = run.validate_with("TraceQuery", slim, dict(AndLeftTrueNeedsFalseSet=True, PreferWildcardB3=False, B3Judge="sem"),
+        rej = run.validate_with("TraceQuery", slim, dict(CODE, PreferWildcardB3=False, B3Judge="sem"),
                                 count=False)
         not_descent = {tid for tid, rs in rej.items() if any(r["clause"] == "drift.b3-wrong-with-this-descent" for r in rs)}
         covered -= (drifted | not_descent) & {t["id"] for t in b3}
@@ -932,7 +932,7 @@ def check_C05(tier, seed, extra_programs=None):
     # two-variable programs and for and_/or_ trees over three independent variables with the descent the code has now
     # (every matching branch); with the descent it had before "fix: IndexedCache.retrieve ..." TLC finds the programs
     # that lost rows (the deviation must break the obligation, else the repair is mis-recorded)
-    b3 = dict(MaxNot=1, NeedNot=False, AndLeftTrueNeedsFalseSet=True)
+    b3 = dict(MaxNot=1, NeedNot=False, AndLeftTrueNeedsFalseSet=True, ForAllKeepsConditionVars=True)
     run.mc("MechCheck", "b3-two-variables", constants=dict(b3, G="G12", NV=2, LeafLimit=8 if quick else 16, MaxLeaves=2,
                                                             PreferWildcardB3=False), invariants=("Mech3EqualsSem",))
     run.mc("MechCheck", "b3-three-variables", constants=dict(b3, G="G1x", NV=3, LeafLimit=6, MaxLeaves=3, MaxNot=0,
@@ -1045,7 +1045,7 @@ def _no_repeats(W):
 
 def _grammar_check(prop, tier, seed, grammars, rule, nvars, leaf_quick=40, sim_quick=400, sim_full=6000,
                    worlds_per_prog=(1, 3), nontrivial=None, quick_cap=2500, full_cap=40000, events=None,
-                   maxleaves_sim=(3, 5), needs=None, fix_world=None, extra=None, fix_doms=None):
+                   maxleaves_sim=(3, 5), needs=None, fix_world=None, extra=None, fix_doms=None, b3_when=None):
     run = Run(prop, tier, seed)
     quick = tier == "quick"
     run.rule = rule
@@ -1074,7 +1074,11 @@ def _grammar_check(prop, tier, seed, grammars, rule, nvars, leaf_quick=40, sim_q
                     doms = fix_doms(p, W, doms, rng)
                 q = mk_query(p, doms)
                 # evaluated twice: the second evaluation is served by the operator caches
-                qc.add(W, [q], events(q) if events else [drain_ev(), drain_ev()])
+                evs = events(q) if events else [drain_ev(), drain_ev()]
+                if b3_when and b3_when(p):     # the mechanism model covers this program: it must predict the exact rows
+                    q = dict(q, declare=list(range(1, len(q["vars"]) + 1)))
+                    evs = [dict(e, b3=True) if e["op"] == "drain" else e for e in evs]
+                qc.add(W, [q], evs)
     if extra:
         extra(qc, rng, quick)
     qc.execute(nontrivial or _nontrivial_rows)
@@ -1093,15 +1097,27 @@ def check_C10(tier, seed):
             return digest(q["cond"])
         return None
     def extra(qc, rng, quick):
+        run = qc.run
+        # Layer B, stage B4: the mechanism of for_all (per universal value: evaluate, complete, project, de-duplicate,
+        # intersect, early exit) yields the denotation's rows on first evaluation and re-evaluation; before
+        # "fix: for_all lost solutions ..." it did not (second free variable under the quantifier)
+        b4 = dict(MaxLeaves=2, MaxNot=1, NeedNot=False, AndLeftTrueNeedsFalseSet=True, PreferWildcardB3=False)
+        run.mc("MechCheck", "b4-for_all", constants=dict(b4, G="G3", NV=2, LeafLimit=4 if quick else 12, ForAllKeepsConditionVars=True),
+               invariants=("Mech4EqualsSem",))
+        run.mc("MechCheck", "b4-second-free-variable", constants=dict(b4, G="G3y", NV=3, LeafLimit=3 if quick else 8,
+                                                                      ForAllKeepsConditionVars=True), invariants=("Mech4EqualsSem",))
+        run.mc("MechCheck", "b4-before-the-repair", constants=dict(b4, G="G3y", NV=3, LeafLimit=8, ForAllKeepsConditionVars=False),
+               invariants=("Mech4EqualsSem",), expect_violation="Mech4EqualsSem", count=False)
         # a second free variable that occurs only under the quantifier: x qualifies when some y makes the universal
         # statement true; the for_all is then evaluated once per binding of x
-        run = qc.run
         progs = run.export("GenQuery", "G3y-bfs", "PROG", constants=dict(G="G3y", NV=3, LeafLimit=10, MaxLeaves=2, MaxNot=1,
                                                                         NeedNot=False), invariants=("Export", "WellFormed"))
         progs = [p for p in progs if '"i": 3' in json.dumps(p["cond"])]
         for p in rng.sample(progs, min(len(progs), 600 if quick else 15000)):
             W, doms = _world_and_doms(rng, 3, quick)
-            qc.add(W, [mk_query(p, doms)], [drain_ev(), drain_ev()], tag="second-free-variable")
+            plain = '"k": "sub' not in json.dumps(p["cond"])
+            qc.add(W, [mk_query(p, doms, declare="given") if plain else mk_query(p, doms)],
+                   [dict(drain_ev(), b3=plain), dict(drain_ev(), b3=plain)], tag="second-free-variable")
         # the same on worlds in which y refers to the x objects and holds some of the universal values, the universal
         # values being the solutions of a sub-query: the quantifier fails for one x after a few universal values and is
         # evaluated again for the next x
@@ -1133,7 +1149,9 @@ def check_C10(tier, seed):
         "for_all(u, c) and for_all(u.n, c) with c any tree over leaves that mention the universal variable, the free "
         "variable, both (joins, membership, predicates), negated or not, alone or conjoined (either side) with a condition "
         "on the free variable; universal domains are non-empty; TLC computes the universally quantified statement; "
-        "non-trivial = some but not all bindings of the free variable qualify", 2, nontrivial=nontrivial, extra=extra)
+        "non-trivial = some but not all bindings of the free variable qualify", 2, nontrivial=nontrivial, extra=extra,
+        # Layer B, stage B4: quantifiers over a plain variable (or an attribute of it) are covered by the mechanism model
+        b3_when=lambda p: '"k": "sub' not in json.dumps(p["cond"]))
 
 
 def check_C16(tier, seed):
